@@ -219,7 +219,10 @@ func (c *Ctx) Fail(class string, cs any, format string, a ...any) {
 	}
 	c.res.NViolations++
 	c.res.ClassCounts[class]++
-	if c.res.ClassCounts[class] <= 3 && len(c.res.Violations) < 24 {
+	// keep a diverse set: at most 3 per (class, message shape)
+	dk := "\x00" + class + "|" + msg[:min(len(msg), 8)]
+	c.res.ClassCounts[dk]++
+	if c.res.ClassCounts[dk] <= 3 && len(c.res.Violations) < 60 {
 		c.res.Violations = append(c.res.Violations, Violation{Class: class, Msg: msg, Case: raw})
 	}
 }
@@ -452,6 +455,37 @@ func parentMain(id, tier string) int {
 	if m.NViolations > 0 {
 		code = 1
 		_ = os.MkdirAll(filepath.Join(Root(), "replays"), 0o755)
+		// cases that fail again when executed alone in a fresh process are listed first
+		if len(m.Violations) > 1 {
+			alone := make([]bool, len(m.Violations))
+			var pw sync.WaitGroup
+			sem := make(chan struct{}, 16)
+			for i, v := range m.Violations {
+				pw.Add(1)
+				sem <- struct{}{}
+				go func(i int, v Violation) {
+					defer func() { <-sem; pw.Done() }()
+					path := filepath.Join(tmp, fmt.Sprintf("probe-%d.json", i))
+					rf := ReplayFile{Property: id, Tier: tier, Class: v.Class, Msg: v.Msg, Case: v.Case}
+					b, _ := json.MarshalIndent(rf, "", " ")
+					_ = os.WriteFile(path, b, 0o644)
+					alone[i] = reproduces(exe, path, 1) == 1
+				}(i, v)
+			}
+			pw.Wait()
+			var first, rest []Violation
+			for i, v := range m.Violations {
+				if alone[i] {
+					first = append(first, v)
+				} else {
+					rest = append(rest, v)
+				}
+			}
+			m.Violations = append(first, rest...)
+		}
+		if len(m.Violations) > 10 {
+			m.Violations = m.Violations[:10]
+		}
 		for i, v := range m.Violations {
 			path := filepath.Join(Root(), "replays", fmt.Sprintf("%s-%s-%d.json", id, tier, i))
 			rf := ReplayFile{Property: id, Tier: tier, Class: v.Class, Msg: v.Msg, Case: v.Case}
@@ -470,6 +504,9 @@ func parentMain(id, tier string) int {
 			fmt.Printf("  class=%q %s%s\n", v.Class, oneLine(v.Msg, 600), repro)
 		}
 		for k, v := range m.ClassCounts {
+			if strings.HasPrefix(k, "\x00") {
+				continue
+			}
 			fmt.Printf("  violations by class: %q = %d\n", k, v)
 		}
 		if int(m.NViolations) > len(m.Violations) {
@@ -586,11 +623,11 @@ func merge(rs []*ShardResult) *ShardResult {
 		for _, v := range r.Violations {
 			n := 0
 			for _, o := range m.Violations {
-				if o.Class == v.Class {
+				if o.Class == v.Class && o.Msg[:min(len(o.Msg), 8)] == v.Msg[:min(len(v.Msg), 8)] {
 					n++
 				}
 			}
-			if n < 3 && len(m.Violations) < 24 {
+			if n < 3 && len(m.Violations) < 60 {
 				m.Violations = append(m.Violations, v)
 			}
 		}
